@@ -11,7 +11,18 @@
    a block may instead start with  D <id>  : start from the tables of the last I block, then apply the
    G/S/P lines given (overriding) and  X <ptr hex>  (page absent)
    output per block:  <id> TAB <clean|repaired|failed> TAB <served slot index|-> TAB <reached pointers, sorted, comma separated>
-                      TAB <transaction id (hex) stored in the served slot|-> *)
+                      TAB <transaction id (hex) stored in the served slot|->
+                      TAB <whole verdict (Verdict.full): true|false|erropen|errcheck|indeterminate|->
+                      TAB <transaction id (hex) in the slot the whole verdict serves|->
+   Whole verdict: an optional line
+     F <len> <magic> <rr> <page size> <region header pages> <region max pages> <full regions> <trailing pages>
+       <versions ok> <forest present> <loaded> <counted slot 0> <counted slot 1>       (numbers hex, flags 0|1)
+   supplies the remaining fields of Verdict.file.  Allocator states are abstracted to one value (the
+   comparison of allocator hashes always succeeds, the rebuild never fails), so the model's verdict is an
+   UPPER bound of the crate's in the order error < Ok(false) < Ok(true); `counted` comes from the reader.
+   The page size the database is opened with is the first command line argument (hex, default 200).
+   forest present = 0: the reader could not decode slots/pages (then the model must say erropen, which
+   needs no forest; anything else is printed as indeterminate). *)
 open C12_model
 
 let rec pos_of_bits = function
@@ -65,6 +76,9 @@ let () =
   let ltab : (string, (n * string) list) Hashtbl.t = Hashtbl.create 64 in
   let ptab : (string, n list) Hashtbl.t = Hashtbl.create 64 in
   let in_base = ref false in
+  let ps_exp = n_of_hex (if Array.length Sys.argv > 1 then Sys.argv.(1) else "200") in
+  let fline : string list option ref = ref None in
+  let base_fline : string list option ref = ref None in
   (* payloads whose links were defined by a line of the current block *)
   let fresh : string list ref = ref [] in
   let reset () = Hashtbl.reset slots; Hashtbl.reset htab; Hashtbl.reset ltab; Hashtbl.reset ptab in
@@ -92,8 +106,9 @@ let () =
     while true do
       let line = input_line stdin in
       match String.split_on_char ' ' line with
-      | "I" :: rest -> reset (); in_base := true; fresh := []; phys_base := []; phys_delta := []; id := String.concat " " rest
-      | "D" :: rest -> restore (); in_base := false; fresh := []; phys_delta := []; id := String.concat " " rest
+      | "I" :: rest -> reset (); fline := None; in_base := true; fresh := []; phys_base := []; phys_delta := []; id := String.concat " " rest
+      | "D" :: rest -> restore (); fline := !base_fline; in_base := false; fresh := []; phys_delta := []; id := String.concat " " rest
+      | "F" :: rest -> fline := Some rest
       | ["X"; ptr] -> Hashtbl.remove ptab (hex_of_n (n_of_hex ptr))
       | ["G"; tp; p] -> two_phase := (tp = "1"); prim := int_of_string p
       | ["S"; i; payload; stored; hsum; txid; links] ->
@@ -111,8 +126,12 @@ let () =
         remember pl payload;
         Hashtbl.replace ptab (hex_of_n (n_of_hex ptr)) pl
       | ["E"] ->
-        if !in_base then base := (!two_phase, !prim, Hashtbl.copy slots, Hashtbl.copy ptab, Hashtbl.copy htab, Hashtbl.copy ltab);
-        let x = { two_phase = !two_phase; primary = Hashtbl.find slots !prim; secondary = Hashtbl.find slots (1 - !prim); pages = img } in
+        if !in_base then begin
+          base := (!two_phase, !prim, Hashtbl.copy slots, Hashtbl.copy ptab, Hashtbl.copy htab, Hashtbl.copy ltab);
+          base_fline := !fline end;
+        let dummy = { s_payload = []; s_sum = "dummy"; s_txid = N0 } in
+        let slot_at i = (try Hashtbl.find slots i with Not_found -> dummy) in
+        let x = { two_phase = !two_phase; primary = slot_at !prim; secondary = slot_at (1 - !prim); pages = img } in
         let v = recover sum_eqb h parse walk_depth x in
         let which s = if s == x.primary then string_of_int !prim else string_of_int (1 - !prim) in
         let (vs, slot, reached, txid) = (match v with
@@ -120,7 +139,22 @@ let () =
           | Repaired s -> ("repaired", which s, cov parse walk_depth img s, hex_of_n s.s_txid)
           | Failed -> ("failed", "-", [], "-")) in
         let ptrs = List.sort_uniq compare (List.map hex_of_n reached) in
-        Printf.printf "%s\t%s\t%s\t%s\t%s\n" !id vs slot (String.concat "," ptrs) txid
+        let (fv, ftx) = (match !fline with
+          | Some [len; magic; rr; ps; hp; cap; fullr; trail; vers; forest; loaded; c0; c1] ->
+            let counted_of (s : string slot) = if s == slot_at 0 then c0 = "1" else if s == slot_at 1 then c1 = "1" else false in
+            let f = { f_len = n_of_hex len; f_magic = (magic = "1"); f_rr = (rr = "1"); f_ps = n_of_hex ps;
+                      f_hp = n_of_hex hp; f_cap = n_of_hex cap; f_full = n_of_hex fullr; f_trail = n_of_hex trail;
+                      f_vers = (vers = "1"); f_db = x; f_loaded = (if loaded = "1" then Some "a" else None) } in
+            let r = full sum_eqb h parse (fun (a : string) b -> a = b) (fun _ _ _ -> Some "a")
+                      (fun _ s -> counted_of s) ps_exp walk_depth f in
+            (match r with
+             | FErrOpen -> ("erropen", "-")
+             | _ when forest <> "1" -> ("indeterminate", "-")
+             | FErrCheck -> ("errcheck", "-")
+             | FOk (c, o) -> ((if c then "true" else "false"), hex_of_n o.o_slot.s_txid))
+          | Some _ -> ("badfline", "-")
+          | None -> ("-", "-")) in
+        Printf.printf "%s\t%s\t%s\t%s\t%s\t%s\t%s\n" !id vs slot (String.concat "," ptrs) txid fv ftx
       | [""] | [] -> ()
       | _ -> Printf.printf "BADLINE %s\n" line
     done
